@@ -286,6 +286,11 @@ func (a *Analyzer) builtin(fr *frame, site ssa.Instruction, b *ssa.Builtin, c *s
 		if v, ok := args[1].(*Slice); ok {
 			nb.From2 = v
 		}
+		// appending to a zero-length re-slice of a buffer that outlives the call (x := p.buf[:0]; x = append(x, …))
+		// writes over the buffer's old contents in place
+		if !s.IsStr && !s.Nil && !s.Base.Fresh && s.Base.Op == "" && s.Base.Desc != "nil-slice" && st.Cons.Entails(Con{s.Len, EQ}) {
+			a.markReused(s, "buffer that outlives the call is truncated to its start and appended to again ("+s.Base.Desc+" at "+a.P.RelPos(site.Pos())+")")
+		}
 		if a.OnAppend != nil {
 			a.OnAppend(fr.fn, site, st, s, args[1])
 		}
